@@ -66,7 +66,7 @@ pub fn run_one(flow: &Flow, inp: &RunIn<'_>) -> RunOut {
 #[test]
 fn e2e_c36() {
     let Some(cfg) = cfg_for("C36") else { return };
-    let flows: Vec<Flow> = FlowKind::ALL.iter().map(|k| build(*k)).collect();
-    let scenarios = flows.iter().map(|f| Scenario { name: f.kind.name(), weight: 1, run: Box::new(move |inp: &RunIn<'_>| run_one(f, inp)) }).collect();
+    let flows: Vec<LazyFlow> = FlowKind::ALL.iter().map(|k| LazyFlow::new(*k)).collect();
+    let scenarios = flows.iter().map(|f| Scenario { name: f.kind.name(), weight: 1, run: Box::new(move |inp: &RunIn<'_>| run_one(f.get(), inp)) }).collect();
     drive(&cfg, &META, scenarios, None);
 }
